@@ -163,7 +163,7 @@ def body_factory(tier, seed):
 
 
 def run(rep, tier, seed):
-    return C.standard_run(rep, PROP, ["Model/CaseVerdict.vo"], body_factory(tier, seed), rule=(
+    return C.standard_run(rep, PROP, ["Model/CaseVerdict.vo"], [body_factory(tier, seed + 1000 * i) for i in range(3 if tier == "thorough" else 1)], rule=(
         "exhaustive sweep through the real validation and to_json: k/10 for |k| <= 100000, k/100 and k/1000 (not multiples "
         "of 0.1) for |k| <= 20000, integers, sampled magnitudes up to 1e9 -- in all six multipleOf positions (thorough) or "
         "one full + five reduced (quick); expectation from the proved closed form (accept iff <= 1 fractional digit); the "
